@@ -661,7 +661,10 @@ def bounded_paths(tier, seed):
         idxs = list(np.ndindex(*shape))
         s = idxs[int(rng.integers(len(idxs)))]
         t = idxs[int(rng.integers(len(idxs)))]
-        npk = int(rng.integers(1, 3))
+        npk = int(rng.integers(1, 5))
+        if c % 5 == 3:
+            F[rng.random(shape) < 0.15] = float('nan')  # NaN is not below the threshold: such voxels are blocked too
+            blocked = blocked | np.isnan(F)
         free = [i for i in idxs if not blocked[i]]
         if not free:
             continue
@@ -674,6 +677,21 @@ def bounded_paths(tier, seed):
         st.case(inp, nontrivial=len(set(shape)) > 1 and bool(blocked.any()), sample={'shape': shape, 'diagonal': inp['diagonal']})
         if r['reproduced']:
             st.violation('paths', r['detail'], 'verif.props.c10:replay_paths', inp)
+    # structured percolation cases: an enclosed (non-percolating) peak listed first, then two percolating channels of different cost, in every order
+    import itertools
+    big = 1.7976931348623157e308
+    Fs = np.full((3, 5, 5), big)
+    Fs[:, 0, 0] = 0.1   # cheap channel along x
+    Fs[:, 2, 2] = 0.5   # expensive channel along x
+    Fs[1, 0, 2] = 0.2   # isolated pocket: not adjacent (even diagonally, periodically) to either channel
+    for order in itertools.permutations([[1, 0, 2], [0, 2, 2], [0, 0, 0]]):
+        inp = {'F': Fs.tolist(), 'diagonal': True, 'start': [0, 0, 0], 'stop': [2, 0, 0], 'peaks': [list(o) for o in order], 'percolate': ['x', 'y', 'xy']}
+        r = st.guard(replay_paths, inp)
+        if r is None:
+            continue
+        st.case(inp, nontrivial=True, sample=None)
+        if r['reproduced']:
+            st.violation('percolation-order', r['detail'], 'verif.props.c10:replay_paths', inp)
     return st.result()
 
 
